@@ -170,6 +170,12 @@ func (container *IKEPayloadContainer) Decode(nextPayload uint8, b []byte) error 
 
 		*container = append(*container, payload)
 
+		if payload.Type() == TypeSK && len(b) > int(payloadLength) {
+			// RFC 7296 section 3.14: the Encrypted payload must be the last payload of the message;
+			// its Next Payload field names the first payload inside, not a payload following it
+			return errors.Errorf("DecodePayload(): Encrypted payload is not the last payload")
+		}
+
 		nextPayload = b[0]
 		b = b[payloadLength:]
 	}
